@@ -80,6 +80,7 @@ impl<'de> Deserialize<'de> for ST {
 
 /// One collected location record.
 #[derive(Clone, Debug)]
+#[allow(dead_code)]
 pub struct Rec {
     /// delivered path: seq index / 2*i (key) / 2*i+1 (value)
     pub path: Vec<usize>,
